@@ -34,7 +34,8 @@ import (
 //   procs     1 | 2 | 4 | 8            (1 = DisableParallelism, else GOMAXPROCS(procs/2))
 //   failpat   string over {0,1}: send attempt i of the main output fails iff failpat[i % len] == '1'
 //   chain     comma list: v<i> (scripted verdict action reading field "v", char i) | j<i> (real join on field m<i>)
-//             | p<i> (real split on field "arr": children are spawned, the parent breaks)
+//             | p<i> (real split on field "arr": children are spawned, the parent breaks); suffix ":c" = the action
+//             has the match condition k<position> = "y" (a busy action still gets every event of its stream)
 //   event spec: JSON object text with "stream", "v", "m0", "m1" … fields
 // Events of source k get offsets k*100000 + 10*(index within source + 1); SourceID = k+1.
 //
@@ -394,13 +395,19 @@ func execC01(t *hx.Toks) string {
 		})
 	}
 	if chain != "-" {
-		for _, a := range strings.Split(chain, ",") {
+		for pos, a := range strings.Split(chain, ",") {
 			if len(a) < 2 {
 				runtime.GOMAXPROCS(oldProcs)
 				return "bad-case"
 			}
+			// suffix ":c": the action carries the match condition k<position> = "y" (MatchModeAnd)
+			var conds pipeline.MatchConditions
+			if strings.HasSuffix(a, ":c") {
+				a = strings.TrimSuffix(a, ":c")
+				conds = pipeline.MatchConditions{{Field: []string{"k" + strconv.Itoa(pos)}, Values: []string{"y"}}}
+			}
 			idx, err := strconv.Atoi(a[1:])
-			if err != nil {
+			if err != nil || len(a) < 2 {
 				runtime.GOMAXPROCS(oldProcs)
 				return "bad-case"
 			}
@@ -415,8 +422,9 @@ func execC01(t *hx.Toks) string {
 						},
 						Config: &c01VerdictConfig{Idx: i},
 					},
-					MetricName: "verif_v" + a[1:],
-					MatchMode:  pipeline.MatchModeAnd,
+					MetricName:      "verif_v" + a[1:],
+					MatchMode:       pipeline.MatchModeAnd,
+					MatchConditions: conds,
 				})
 			case 'j':
 				jc := &join.Config{
@@ -441,6 +449,7 @@ func execC01(t *hx.Toks) string {
 					PluginStaticInfo: &pipeline.PluginStaticInfo{Type: "join", Factory: jinfo.Factory, Config: jc},
 					MetricName:       "verif_j" + a[1:],
 					MatchMode:        pipeline.MatchModeAnd,
+					MatchConditions:  conds,
 				})
 			case 'p':
 				// the real split plugin on field "arr" (array of objects -> child events, parent breaks)
@@ -460,6 +469,7 @@ func execC01(t *hx.Toks) string {
 					PluginStaticInfo: &pipeline.PluginStaticInfo{Type: "split", Factory: sinfo.Factory, Config: sc},
 					MetricName:       "verif_p" + a[1:],
 					MatchMode:        pipeline.MatchModeAnd,
+					MatchConditions:  conds,
 				})
 			default:
 				runtime.GOMAXPROCS(oldProcs)
@@ -656,6 +666,14 @@ func genC01Case(rng *hx.Rng, allowDQ bool) *c01Gen {
 			chain = append(chain, "v"+strconv.Itoa(i))
 		}
 	}
+	// match conditions on a third of the actions (field k<position> = "y")
+	cond := make([]bool, nact)
+	for i := range chain {
+		if rng.Chance(1, 3) {
+			cond[i] = true
+			chain[i] += ":c"
+		}
+	}
 	g.chain = strings.Join(chain, ",")
 	nstreams := rng.Range(1, 3)
 	nev := rng.Range(3, 40)
@@ -691,7 +709,18 @@ func genC01Case(rng *hx.Rng, allowDQ bool) *c01Gen {
 		if splitAt >= 0 && rng.Chance(1, 3) {
 			kids = rng.Range(1, 3)
 		}
-		g.events = append(g.events, c01Event{src: src, stream: stream, spec: c01SpecKids(stream, string(v), []string{m}, kids)})
+		spec := c01SpecKids(stream, string(v), []string{m}, kids)
+		// three quarters of the events satisfy a given condition
+		var ks strings.Builder
+		for p, c := range cond {
+			if c && !rng.Chance(1, 4) {
+				fmt.Fprintf(&ks, `,"k%d":"y"`, p)
+			}
+		}
+		if ks.Len() > 0 {
+			spec = append(spec[:len(spec)-1], []byte(ks.String()+"}")...)
+		}
+		g.events = append(g.events, c01Event{src: src, stream: stream, spec: spec})
 	}
 	return g
 }
